@@ -3,6 +3,7 @@ package checks
 import (
 	"bytes"
 	"runtime"
+	"sync"
 	"encoding/base64"
 	"fmt"
 	"io"
@@ -514,10 +515,12 @@ func c10(r *vc.Run) int {
 	memMB := 2048
 	m := newMerged()
 	var maxCPU atomic.Int64
+	var confirmedMu sync.Mutex
+	confirmed := map[string]bool{}
 	parallel(nWorkers, nWorkers, func(w int) {
 		start, end := w*per, (w+1)*per
-		restarts := 0
-		for start < end && restarts < 60 {
+		restarts, hangs := 0, 0
+		for start < end && restarts < 60 && hangs < 4 {
 			sc := c10Scenario{Seed: r.Seed, Start: start, End: end, CPUBudget: budget, MemLimitMB: memMB}
 			dir := filepath.Join(r.Scratch, fmt.Sprintf("c10-%d-%d", w, restarts))
 			res := runChild(os.Getenv("VZ_BIN"), "c10", sc, dir, 40*time.Minute)
@@ -534,7 +537,12 @@ func c10(r *vc.Run) int {
 				sig := "hang@" + hangFrame(string(st))
 				_ = reason
 				what := fmt.Sprintf("input %d (%s): more than %d s CPU / %d MiB resident on one input of %d bytes, spinning in %s", idx, c10GenCase(r.Seed, idx).Kind, budget, memMB, len(c10GenCase(r.Seed, idx).Body), hangFrame(string(st)))
-				if r.IsKnown(sig) {
+				confirmedMu.Lock()
+				already := confirmed[sig]
+				confirmedMu.Unlock()
+				hangs++
+				if r.IsKnown(sig) || already {
+					// a listed finding, or a call site already confirmed in this run: no second confirmation
 					r.Violation(sig, what, c10Witness(r.Seed, idx))
 				} else {
 					// confirm alone with 5x the CPU budget and twice the memory
@@ -544,6 +552,9 @@ func c10(r *vc.Run) int {
 						w := c10Witness(r.Seed, idx)
 						w["stacks"] = truncate(string(st), 6000)
 						r.Violation(sig, what+" (confirmed alone with 5x CPU, 2x memory)", w)
+						confirmedMu.Lock()
+						confirmed[sig] = true
+						confirmedMu.Unlock()
 					} else {
 						r.Inconclusive("budget-not-confirmed")
 					}
@@ -576,8 +587,8 @@ func c10(r *vc.Run) int {
 			}
 			break
 		}
-		if restarts >= 60 {
-			r.Note("worker %d stopped after 60 crashing inputs", w)
+		if restarts >= 60 || hangs >= 4 {
+			r.Note("worker %d stopped early after %d crashing/hanging inputs (%d hangs): inputs %d..%d not run", w, restarts, hangs, start, end)
 		}
 	})
 	cov := map[string]any{
